@@ -298,11 +298,13 @@ func genC03(o *Out, rng *rand.Rand, tier string) {
 			})
 		}
 		run("BroadcastRawUDPConn.ReadFrom", func() {
-			sc := &scriptConn{frames: [][]byte{in, in}}
-			c := nclient4.NewBroadcastUDPConn(sc, &net.UDPAddr{Port: 68})
-			for k := 0; k < 3; k++ {
-				if _, _, err := c.ReadFrom(make([]byte, 1500)); err != nil {
-					break
+			for _, bound := range []*net.UDPAddr{{Port: 68}, nil, {IP: net.IPv4(10, 0, 0, 1), Port: 67}} {
+				sc := &scriptConn{frames: [][]byte{in, in}}
+				c := nclient4.NewBroadcastUDPConn(sc, bound)
+				for k := 0; k < 3; k++ {
+					if _, _, err := c.ReadFrom(make([]byte, 1500)); err != nil {
+						break
+					}
 				}
 			}
 		})
@@ -421,6 +423,20 @@ func genC03(o *Out, rng *rand.Rand, tier string) {
 			in = mutate(in)
 		}
 		trySmall(in, "small-entry-points")
+	}
+	// (ii') the deeply nested and the very repetitive shapes (the witness families of the cost check), small enough
+	// for every read-only operation to be applied to them
+	for _, sz := range []int{700, 1400, 4000} {
+		for _, f := range costFamilies(rng, sz) {
+			switch f.entry {
+			case "v6":
+				tryV6(f.in, "nested-and-repetitive")
+			case "v4":
+				tryV4(f.in, "nested-and-repetitive")
+			default:
+				trySmall(f.in, "nested-and-repetitive")
+			}
+		}
 	}
 	// (iii) large inputs up to the maximum UDP payload (decoding only for the large ones)
 	for _, L := range []int{4096, 4097, 16384, 65507} {
